@@ -141,6 +141,12 @@ def _nary(op, py):
 
 
 def _int(x=0, *a):
+    # python converts the result of __int__ to an exact int (losing a symbolic proxy): dispatch explicitly
+    tn = type(x).__name__
+    if tn == 'SymInt':
+        return x
+    if tn == 'SymFloat':
+        return x.__int__()
     if isinstance(x, S.Sym):
         if x.k in S.FSORT:
             return S.cast(x, 'i8')
@@ -149,12 +155,19 @@ def _int(x=0, *a):
 
 
 def _float(x=0.0):
+    tn = type(x).__name__
+    if tn == 'SymFloat':
+        return x
+    if tn == 'SymInt':
+        return x.__float__()
     if isinstance(x, S.Sym):
         return x if x.k in ('f8', 'x4') else S.cast(x, 'f8')
     return float(x)
 
 
 def _round(x, nd=None):
+    if type(x).__name__ in ('SymInt', 'SymFloat'):
+        return x.__round__(nd)
     if isinstance(x, S.Sym):
         if nd is not None:
             raise Unsupported('round(x, ndigits) on a symbolic value')
